@@ -56,11 +56,27 @@ def _resolve_target(
     """
     # _data_ has been loaded already. If an operation has made the document a
     # string, it is a JSON string, not JSON text to be parsed.
-    parent, obj = pointer._resolve_parent(data)
-    if parent is None:
-        return parent, obj
+    if not pointer.parts:
+        return None, data
+
+    parent: object = data
+    for token in pointer.parts[:-1]:
+        if (
+            isinstance(parent, Sequence)
+            and not isinstance(parent, str)
+            and not _is_index(token)
+        ):
+            # "-1" on the way to the target is no more an array index than
+            # it is as the target.
+            raise JSONPatchError(f"invalid array index {token!r}")
+        parent = pointer._getitem(parent, token)
 
     target = pointer.parts[-1]
+    try:
+        obj = pointer._getitem(parent, target)
+    except (JSONPointerIndexError, JSONPointerKeyError):
+        obj = UNDEFINED
+
     if isinstance(parent, Mapping):
         if obj is not UNDEFINED and _member_name(parent, target) not in parent:
             obj = UNDEFINED
